@@ -346,4 +346,46 @@ example : ∀ s, weightOf [("b", -3), ("x", 2)] s ≠ 0 := by
     rcases this with rfl | rfl <;> decide +kernel
   · decide +kernel
 
+/-! ### Sizes of the differentiation variables (round 3) -/
+
+/-- **The size used to place the blocks of a requested input is the length of its value.**  If every
+    Jacobian block a discipline holds with respect to `v` has as many columns as the current value of `v`
+    has components (`n`), and `v` has such a block or such a value, then `compute_sizes` returns `n` —
+    also when no requested function depends on `v` (no block is held: the value decides), and whatever the
+    lengths of the grammar defaults, which the computation never reads. -/
+theorem variable_size_is_length_of_value (held : List ((String × String) × Mat))
+    (values : List (String × List Rat)) (v : String) (n : Nat)
+    (hheld : ∀ b ∈ held, b.1.2 = v → width b.2 = n)
+    (hval : ∀ e ∈ values, e.1 = v → e.2.length = n)
+    (hex : (∃ b ∈ held, b.1.2 = v) ∨ (∃ e ∈ values, e.1 = v)) :
+    variableSize held values v = some n := by
+  unfold variableSize
+  cases hf : held.find? (fun b => b.1.2 == v) with
+  | some b =>
+    have hb := List.find?_some hf
+    have hm := List.mem_of_find?_eq_some hf
+    simp only [beq_iff_eq] at hb
+    simp [hheld b hm hb]
+  | none =>
+    have hnone : ∀ b ∈ held, ¬ b.1.2 = v := by
+      intro b hb hbv
+      have := List.find?_eq_none.mp hf b hb
+      simp [hbv] at this
+    rcases hex with ⟨b, hb, hbv⟩ | ⟨e, he, hev⟩
+    · exact absurd hbv (hnone b hb)
+    · cases hv : values.find? (fun e => e.1 == v) with
+      | some e' =>
+        have h1 := List.find?_some hv
+        have h2 := List.mem_of_find?_eq_some hv
+        simp only [beq_iff_eq] at h1
+        simp [hval e' h2 h1]
+      | none =>
+        have := List.find?_eq_none.mp hv e he
+        simp [hev] at this
+
+/-- Non-vacuity: one block `∂f/∂x` (two columns) is held, `p` (no function depends on it) has a value with
+    three components: the sizes are 2 (from the block) and 3 (from the value). -/
+example : variableSize [(("f", "x"), [[1, 2]])] [("x", [0, 0]), ("p", [0, 0, 0])] "p" = some 3 ∧
+    variableSize [(("f", "x"), [[1, 2]])] [("x", [0, 0]), ("p", [0, 0, 0])] "x" = some 2 := by decide
+
 end GV.C07
